@@ -690,6 +690,8 @@ std::vector<BlockRef> list_blocks(const Model& m)
         add(BlockRef::GDECL, -1, -1, "/nta/declaration");
     for (size_t ti = 0; ti < m.templs.size(); ++ti) {
         auto& t = m.templs[ti];
+        if (t.dynamic)
+            continue;  // (counted in the XPath index of the templates that follow, but its own blocks are not faulted)
         std::string tp = "/nta/template[" + std::to_string(ti + 1) + "]";
         if (!t.params.empty())
             add(BlockRef::PARAM, (int)ti, -1, tp + "/parameter");
